@@ -109,4 +109,12 @@ CHECKS = {
                      "input lists and every order of their internal sets. Post-conditions of the statement (sorted, no overlap beyond the margin, outputs are "
                      "inputs or legitimate merges, every drop is excused) and 'one result for all orders' are checked.",
                 note="Set-order hook owns all sets created in antiSMASH code; profile lengths 40/100 put the 20% margin, 1.5x span and 50%/33% completeness thresholds on menu boundaries; one open finding (C13-F1)."),
+    "C17": dict(engine="E3", level="model_checking", ref="DESIGN.md 5/C17",
+                technique="stateless deviation-bounded exploration of set-iteration orders (AST import hook over the whole antismash package), differential against the default order; conformance runs in plain interpreters under varied PYTHONHASHSEED",
+                text="Tie-laden scenarios run through detection -> annotation -> protoclusters -> candidates -> regions -> to_biopython -> GenBank/JSON "
+                     "text (and refinement / detection filters) in a process where every set created in antiSMASH code iterates in an order chosen by the "
+                     "explorer: default order, every single deviation at every choice point, all pairs (triples) on small scenarios. Every explored "
+                     "order must produce byte-identical output. The same scenarios run uninstrumented in 8/32 child processes with different hash seeds "
+                     "and allocation patterns; all must agree with each other and with the explored outcome.",
+                note="Seed space 2^32 replaced by exhaustive ownership of set iteration order within the deviation bound; dict order is insertion order; sets inside Biopython/stdlib not instrumented; pair exploration capped at 4000 runs per scenario in thorough (cap reported)."),
 }
